@@ -211,7 +211,11 @@ impl Matcher {
     /// smaller. Never report a negative allowable cost: the distributions exceed the expenditure
     /// they fall on, which TCGA92/S122(2) does not cover.
     fn reject_negative_allowable_cost(&self) -> Result<(), CgtError> {
-        let negative = |cost: Decimal| cost.round_dp(2) < Decimal::ZERO;
+        // To the penny as the reports show it: midpoints away from zero, so -0.005 is -£0.01.
+        let to_pence = |cost: Decimal| {
+            cost.round_dp_with_strategy(2, rust_decimal::RoundingStrategy::MidpointAwayFromZero)
+        };
+        let negative = |cost: Decimal| to_pence(cost) < Decimal::ZERO;
         let offender = self
             .matches
             .iter()
@@ -243,7 +247,7 @@ impl Matcher {
                  they fall on ({place} would have an allowable cost of £{}). TCGA92/S122(2) does \
                  not apply when distribution exceeds expenditure (CG57847). Part-disposal under \
                  S122(1) or election under S122(4) is required.",
-                cost.round_dp(2)
+                to_pence(cost)
             ))),
             None => Ok(()),
         }
